@@ -455,7 +455,8 @@ impl<'de> Deserialize<'de> for Styles {
 
 pub fn parse_style(line: &str) -> Style {
     let (foreground, background) =
-        line.split_at(line.to_lowercase().find("on ").unwrap_or(line.len()));
+        // ASCII lower-casing keeps the byte offsets of `line` (a full lower-casing can change them)
+        line.split_at(line.to_ascii_lowercase().find("on ").unwrap_or(line.len()));
     let foreground = process_color_string(foreground);
     let background = process_color_string(&background.replace("on ", ""));
 
@@ -509,15 +510,25 @@ fn parse_color(s: &str) -> Option<Color> {
             .unwrap_or_default();
         Some(Color::Indexed(c))
     } else if s.contains("gray") {
-        let c = 232
-            + s.trim_start_matches("gray")
+        // the gray ramp is 232..=255: a level that does not fit is not a colour
+        let c = 232u8.checked_add(
+            s.trim_start_matches("gray")
                 .parse::<u8>()
-                .unwrap_or_default();
+                .unwrap_or_default(),
+        )?;
         Some(Color::Indexed(c))
     } else if s.contains("rgb") {
-        let red = (s.as_bytes()[3] as char).to_digit(10).unwrap_or_default() as u8;
-        let green = (s.as_bytes()[4] as char).to_digit(10).unwrap_or_default() as u8;
-        let blue = (s.as_bytes()[5] as char).to_digit(10).unwrap_or_default() as u8;
+        // three digits after "rgb" (a missing one counts as 0), each a level of the 6x6x6 colour cube
+        let digit = |i: usize| {
+            s.as_bytes()
+                .get(i)
+                .and_then(|b| (*b as char).to_digit(10))
+                .unwrap_or_default() as u8
+        };
+        let (red, green, blue) = (digit(3), digit(4), digit(5));
+        if red > 5 || green > 5 || blue > 5 {
+            return None;
+        }
         let c = 16 + red * 36 + green * 6 + blue;
         Some(Color::Indexed(c))
     } else if s == "bold black" {
